@@ -41,7 +41,7 @@ ERRMAP = [
     ("different run_ids", 52), ("different number of items", 53), ("different time ranges", 54),
     ("Data is not continuous", 55), ("empty input buffer", 60), ("are different:", 61), ("Weird!", 62),
     ("inconsistent time ranges", 63), ("has no subruns information", 64), ("No data returned", 65),
-    ("it has no chunks", 65),
+    ("it has no chunks", 65), ("terminated with leftover", 66),
 ]
 
 
